@@ -5,6 +5,7 @@ import CedarVerif.Driver.Ops.Syntax
 import CedarVerif.Driver.Ops.PolicySet
 import CedarVerif.Driver.Ops.Est
 import CedarVerif.Driver.Ops.Fmt
+import CedarVerif.Driver.Ops.Json
 /-
 Line-protocol driver: one request per line on stdin, one reply per line on stdout.
 Unknown or malformed requests answer `(bad-op)`; the driver never defaults.
@@ -20,7 +21,8 @@ def handlers : List (Sexp → Option String) := [
   Ops.handleSyntax,
   Ops.handlePSet,
   Ops.handleEst,
-  Ops.handleFmt
+  Ops.handleFmt,
+  Ops.handleJson
 ]
 
 def handle (x : Sexp) : String :=
